@@ -348,7 +348,7 @@ def spec(c: Ctx):
         _, ti, p, sti, before, deep = op
         if c.typed(ti) and not c.typed(sti):
             return ("refuse",)
-        if c.typed(ti) != c.typed(sti) or not (before is None or before is True or before is False or before == 0 or isinstance(before, dict)):
+        if c.typed(ti) != c.typed(sti):
             return ("any",)
         f = c.forest(ti)
         sf = f if sti == ti else c.forest(sti)
